@@ -228,4 +228,18 @@ theorem string_file_roundtrip (pr : Char → Bool) (name : Str) (hn : GoodName n
     (by intro x hx; simp at hx; subst hx; exact ⟨hn, by intro w hw; simp at hw⟩)
   simpa [VSpec.spec, strSerialize] using this
 
+/-! ### the String variants -/
+
+/-- String, StringSurroundedBySpaces, StringWithSpaceOnRight: whatever `setValue` stores reloads to
+itself (`set(str(node))` of a fresh node of the same class), for every string.
+NormalizedString is not covered by a theorem (its `serialize` wraps lines with `textwrap`; see the
+known finding C15-normalized-wrap): correspondence only. -/
+theorem string_variants_roundtrip (k : StrClass) (hk : k ≠ .normalized) (pr : Char → Bool) (v : Str) :
+    k.set pr (strStr pr (k.setValue v)) = .ok (k.setValue v) := by
+  unfold StrClass.set
+  rw [if_neg hk]
+  simp only [string_roundtrip, SetRes.bind, setValue_idem k hk]
+
+example : StrClass.surrounded ≠ .normalized ∧ StrClass.surrounded.setValue "\"".toList = " \" ".toList := by decide
+
 end C15
